@@ -163,6 +163,9 @@ func (file *File) Update(time int, pos int, insLength int, delLength int) {
 	if insLength < 0 || delLength < 0 {
 		panic("insLength and delLength must be non-negative")
 	}
+	if insLength > math.MaxUint32 || delLength > math.MaxUint32 {
+		panic("insLength and delLength may not be > MaxUint32")
+	}
 	if insLength|delLength == 0 {
 		return
 	}
@@ -208,7 +211,7 @@ func (file *File) Update(time int, pos int, insLength int, delLength int) {
 		node := iter.Item()
 		nextIter := iter.Next()
 		if nextIter.Limit() {
-			if uint32(pos+delLength) > node.Key {
+			if pos+delLength > int(node.Key) {
 				panic("attempt to delete after the end of the file")
 			}
 			break
